@@ -32,6 +32,7 @@ pub struct DebugServer {
     lsp: Arc<Mutex<LspContext>>,
     shutdown: Arc<AtomicBool>,
     thread: Option<JoinHandle<()>>,
+    port: u16,
 }
 
 impl DebugServer {
@@ -42,12 +43,14 @@ impl DebugServer {
             lsp,
             shutdown,
             thread: None,
+            port: 0,
         }
     }
 
     pub fn start(&mut self, port: u16) -> MosResult<()> {
         let thread_shutdown = self.shutdown.clone();
         let lsp = self.lsp.clone();
+        self.port = port;
         self.thread = Some(std::thread::spawn(move || {
             while !thread_shutdown.load(Ordering::Relaxed) {
                 let mut dbg = DebugSession::new(lsp.clone(), port);
@@ -63,11 +66,17 @@ impl DebugServer {
     }
 
     pub fn join(self) -> MosResult<()> {
+        // Set the flag first, so that no new session is started once the current one has ended
         self.shutdown.store(true, Ordering::Relaxed);
-        self.thread
-            .unwrap()
-            .join()
-            .expect("Could not join debugger thread");
+        let thread = self.thread.unwrap();
+        while !thread.is_finished() {
+            // End a running session...
+            self.lsp.lock().unwrap().invoke_shutdown_handlers();
+            // ...or wake up a session that is still waiting for a debugger to connect
+            let _ = std::net::TcpStream::connect(("127.0.0.1", self.port));
+            std::thread::sleep(std::time::Duration::from_millis(10));
+        }
+        thread.join().expect("Could not join debugger thread");
         Ok(())
     }
 }
@@ -832,6 +841,8 @@ impl DebugSession {
                     Err(_) => break,
                 },
                 1 => {
+                    // A selected operation must be completed, or crossbeam panics when it is dropped
+                    let _ = oper.recv(lsp_shutdown_receiver.receiver());
                     log::trace!("Shutdown received from LSP.");
                     break;
                 }
